@@ -102,10 +102,16 @@ def merged_units(tier):
     n = 0
     texts = [["Some words."], ["first", "", "third"], ["first", "", "", "fourth"], ["", "", "", "x"], ["a */ b"], ["export type Zed = 1;"],
              # a doc line that starts (column 0 in a block comment) with the words `export type` and the NAME OF A NEIGHBOUR in the file
-             ["first", "export type Aa@ = 1;"], ["x", "export type Zz@ = { z: 1 };", "export type Mm@ = 2;"], ["naïve 日本語 ß"], ["x" * 300]]
+             ["first", "export type Aa@ = 1;"], ["x", "export type Zz@ = { z: 1 };", "export type Mm@ = 2;"], ["naïve 日本語 ß"], ["x" * 300],
+             # more than 8 KiB of documentation in multi-byte characters, at two alignments (whatever reads the shared file
+             # back in pieces must not cut a character)
+             # (three-byte characters: 8 KiB are under 3000 characters; every line is different, so a damaged one is missed)
+             ["%02d %s" % (k_, "日本語の説明文" * 40) for k_ in range(12)], ["x%02dy %s" % (k_, "説明文の日本語" * 40) for k_ in range(12)]]
     for lines in texts:
         for syntax in SYNTAX:
             for docpos in ("container", "field"):
+                if len(lines) >= 12 and (syntax, docpos) not in ((SYNTAX[0], "container"), (SYNTAX[2], "field")):
+                    continue        # (the long texts: two combinations each, they are expensive to lex character by character)
                 name = "MG%d" % n
                 n += 1
                 d = doc_attrs(lines, syntax)
